@@ -5,7 +5,7 @@ import time
 
 from hypothesis import strategies as st
 
-from ..common import crash_signature, digest, grammar, has_error, short
+from ..common import case_int, crash_signature, digest, disturb, grammar, has_error, short
 from ..engine import Outcome, Prop
 from ..gen import text as T
 
@@ -147,7 +147,7 @@ class C02(Prop):
     def check(self, case):
         code, v = case['code'], case['version']
         g = grammar(v)
-        abandon_strict_parse(g)
+        disturb(g, case_int(code, v))
         t0 = time.time()
         m, fail = parse_guarded(g, code)
         if time.time() - t0 > SLOW_S and fail is None:
